@@ -73,6 +73,8 @@ def cases(tier, seed):
                         if tier == "quick" and disp == 2 and merged >= 2 and call_order == 1:
                             continue
                         out.append({"assembly": name, "disp": disp, "states": list(states), "names": mode, "merge_order": call_order})
+                        if merged >= 1 and disp == 0 and name in ("pair", "tower3", "ell3") and call_order == 0 and mode == "unique":
+                            out.append({"assembly": name, "disp": disp, "states": list(states), "names": mode, "merge_order": call_order, "late_merge": True})
     return out
 
 
@@ -189,10 +191,16 @@ def build(case, order, ops, merges):
         for a in range(3):
             loft.chop(a, count=1)
         lofts.append(loft)
-    for m, s in merges:
-        mesh.merge_patches(m, s)
+    if not case.get("late_merge"):
+        for m, s in merges:
+            mesh.merge_patches(m, s)
     for b in order:
         mesh.add(lofts[b])
+    if case.get("late_merge"):
+        # the pairs are declared on the ASSEMBLED mesh: the same partition
+        mesh.assemble()
+        for m, s in merges:
+            mesh.merge_patches(m, s)
     return mesh, lofts
 
 
@@ -212,7 +220,8 @@ def run_case(case):
         coords = dict(case, order=list(order))
         mesh, lofts = build(case, order, ops, merges)
         try:
-            mesh.assemble()
+            if not case.get("late_merge"):
+                mesh.assemble()
         except Exception as err:
             violations.append({"clause": "assemble-raised", "coords": coords, "detail": f"{type(err).__name__}: {err}"})
             continue
